@@ -17,6 +17,7 @@ from sa.pyfront import Program
 from sa.symex import Interp
 
 RULES = {
+    "R-C17-f": "pooled evaluation is the serial evaluation: the dispatch waits for every task before reduce reads the regions, and tasks write only their own blocks (imported from the C16 analysis)",
     "R-C17-e": "the compiled kernels keep no state between calls: every buffer they write is allocated inside the call (no module-level / `global` workspace)",
     "R-C17-a": "no entry point writes storage reachable from a caller-supplied argument (every store target is FRESH or a view of FRESH)",
     "R-C17-b": "outside constructors nothing rebinds or mutates self / aggregator state, except the named diagnostics (tracing, intersection_data_points, _tracing)",
@@ -206,6 +207,18 @@ def main(tier):
         kn += 1
         rep.add("R-C17-e", where, cons, status, detail, True, {"history": "pooled ccube evaluation with poolsize >= 2: two tasks intersect into the same workspace at once and one receives the other's row ids"} if status == "VIOLATED" else None)
     rep.floor("R-C17-e", 4, kn)
+    # R-C17-f: pooled evaluation equals serial evaluation only if calculate waits for its tasks and they write disjoint
+    # blocks: decided by the C16 analysis (dispatch is blocking, tasks select their own region views)
+    import c16
+    k16 = 0
+    for module, clsname in (("ccubes", "ccube"), ("xcubes", "xcube")):
+        sub16 = core.Report("C16", level="other", rules=c16.RULES, tier=tier)
+        c16.analyse_one(prog, module, clsname, sub16)
+        for o in sub16.obls:
+            if o.rule in ("R-C16-a", "R-C16-b", "R-C16-c"):
+                k16 += 1
+                rep.add("R-C17-f", o.where, "[%s] %s" % (o.rule, o.construct), o.status, o.detail, True, o.witness)
+    rep.floor("R-C17-f", 6, k16)
     rep.analysed["roots"] = ["%s [%s]" % (fi.fq, k) for fi, k in roots]
     rep.analysed["events"] = stats["events"]
     rep.analysed["write_events_classified"] = stats["mods"]
